@@ -7,9 +7,10 @@ BUDGET = {'quick': 1200, 'thorough': 5000}
 RULE = ('Hypothesis-generated World histories (create/add/replace/remove/delete/delete_now/process/clear) '
         'interleaved with dispatch_enabled toggles and probe dispatches, including operations issued re-entrantly by '
         'armed lifecycle callbacks (a component removing itself in its on_add, deleting its own or another entity, '
-        'disabling dispatching in the middle of create_entity), over recorder component classes of all '
+        'disabling dispatching in the middle of create_entity; a postponed callback that, when released, runs its own '
+        'disable / attach / enable batch), over recorder component classes of all '
         'declaration shapes (handler or not, on_add and/or on_remove, renamed methods, extra probe listener, '
-        'inherited mappings). Oracle: a reference model yields for every operation the multiset of owed '
+        'inherited mappings; falsy instances; value-equal instances, hashable or not). Oracle: a reference model yields for every operation the multiset of owed '
         'callbacks (receiver identity, entity, world); enabled: the log segment of the operation must equal '
         'it; disabled: no callback may run and the owed groups must be delivered in operation order at the '
         'enabling assignment; is_handler(c) <=> attached after every step; probes reach exactly the attached '
